@@ -1132,6 +1132,30 @@ GROUPS.append(("FnsSpMisc2.lean", ["Sds.Model.GenStructs", "Sds.Generated.FnsBui
 ]))
 
 
+# ---- `RLVector::load`: the four `T::load(reader)?`, the block-count sanity check, the three sample indexes rebuilt over
+# `(0..sample_blocks).map(|block| samples.get(..))` (each the list of its items), the final struct
+RLLOAD_CALLS = dict(LOADS, **{
+    "<IntVector>.len": dict(lean="{0}.len", ret=U, monadic=False),
+    "<IntVector>.get": dict(lean="gen_IntVector_get m {0} {1}", ret=W, args=[U]),
+    "bits::div_round_up": dict(lean="gen_div_round_up m {0} {1}", ret=U, args=[U, U]),
+    "SampleIndex::new": dict(lean="gen_SampleIndex_new m {0} {1}", ret=("N", "SampleIndex"), args=[LISTIT, U]),
+})
+WMLOAD_CALLS = dict(LOADS, **{
+    "Vec::with_capacity": dict(lean="(#[] : {{ty}})", ret="HINT", monadic=False, args=[U]),
+    "<BitVector>.len": dict(lean="BitVector.len {0}", ret=U, monadic=False),
+    "<BvArray>.push": dict(lean="{0}.push {1}", ret=UNIT, mutrecv=True, args=[BV]),
+    "<WMCore>.init_support": dict(lean="gen_WMCore_init_support m {0}", ret=UNIT, mutrecv=True, monadic=True),
+})
+GROUPS.append(("FnsLoad3.lean", ["Sds.Model.WM", "Sds.Generated.FnsLoad", "Sds.Generated.FnsConstr5"], [
+    dict(file="wavelet_matrix/wm_core.rs", impl=r"impl Serialize for WMCore\b", fn="load", name="gen_WMCore_load", reader="reader", ret=("N", "WMCore"),
+         calls=WMLOAD_CALLS, structs_over={"WMCore": WMCORE_STRUCT}),
+]))
+GROUPS.append(("FnsLoad2.lean", ["Sds.Model.RL", "Sds.Generated.FnsLoad", "Sds.Generated.FnsConstr"], [
+    dict(file="rl_vector.rs", impl=r"impl Serialize for RLVector\b", fn="load", name="gen_RLVector_load", reader="reader", ret=RLV_T, calls=RLLOAD_CALLS,
+         structs_over={"RLVector": RLVEC_STRUCT}),
+]))
+
+
 def generate_fn_files(read, consts_by_file):
     """read(rel) -> source text; consts_by_file: {rel: {NAME: int}} (module / associated constants visible in that file)"""
     files = {}
